@@ -162,6 +162,29 @@ def _field_reads(sl, fields):
     return out
 
 
+def _session_state_reads(sl):
+    """payload fields of the session's state enums (ServerState / ClientState / CurrentSessionId) read in a slice"""
+    out = set()
+    for _, _, node in sl:
+        places = []
+        if 'rv' in node:
+            ops, pls = rv_operands(node['rv'])
+            places = pls + [op_place(o) for o in ops if op_place(o) is not None]
+        elif node.get('k') == 'call':
+            places = [op_place(o) for o in node['args'] if op_place(o) is not None]
+        for q in places:
+            pp = q.get('p', [])
+            enums = [strip_generics(e) for e in q.get('e', [])]
+            di = 0
+            for i, el in enumerate(pp):
+                if el.startswith('d:'):
+                    e = enums[di] if di < len(enums) else ''
+                    di += 1
+                    if e in (M + 'ServerState', M + 'ClientState', M + 'CurrentSessionId') and i + 1 < len(pp) and pp[i + 1].startswith('f:'):
+                        out.add('%s::%s.%s' % (e.split('::')[-1], el[2:], pp[i + 1][2:]))
+    return out
+
+
 def _controlling_switches(body, bb):
     out = []
     for sb in body.live_blocks():
@@ -179,7 +202,8 @@ def _controlling_switches(body, bb):
 def r3_attribute_plumbing(ctx):
     ctx.rule('C12.R3', 'P7: in Session::finalize every cookie builder/setter call is governed (value argument and controlling '
              'branch conditions) by exactly the like-named SessionCookieConfig field(s): name, domain, path, same_site, '
-             'secure, http_only, and max-age by kind + state.ttl; the removal cookie carries name, domain, path.')
+             'secure, http_only, and max-age by kind + state.ttl, and by no run-time state of the session (server/client state payloads, id); '
+             'the removal cookie carries name, domain, path.')
     fields = ctx.need('C12.R3', 'ADT SessionCookieConfig', _config_fields(ctx))
     fin = [b for b in ctx.fb.bodies_of_item(CR, FINALIZE) if b.is_coroutine]
     body = ctx.need('C12.R3', 'coroutine body of Session::finalize', fin[0] if len(fin) == 1 else None)
@@ -203,11 +227,13 @@ def r3_attribute_plumbing(ctx):
         args = t['args'] if meth == 'new' else t['args'][1:]
         if meth == 'new':
             args = t['args'][:1]  # the name; the value is the serialized client state
+        state_reads = set()
         for a in args:
             pl = op_place(a)
             if pl is not None:
                 sl, _ = backward_slice(body, pl['l'], defs)
                 gov |= _field_reads(sl, fields)
+                state_reads |= _session_state_reads(sl)
         for sb, st in _controlling_switches(body, bb):
             pl = op_place(st['d'])
             if pl is not None:
@@ -225,6 +251,10 @@ def r3_attribute_plumbing(ctx):
         seen[kind].add(meth)
         ctx.ob('C12.R3', 'governed|%s::%s' % (kind, meth), gov == want, body.loc(bb, t),
                '%s::%s is governed by config field(s) %s (documented: %s)' % (kind, meth, sorted(gov), sorted(want)))
+        if state_reads:
+            ctx.ob('C12.R3', 'config-only|%s::%s' % (kind, meth), False, body.loc(bb, t),
+                   'the value given to %s::%s also derives from the session\'s run-time state (%s): the attribute is no longer the configured one' % (
+                       kind, meth, sorted(state_reads)))
     for kind, table in (('ResponseCookie', set(SETTERS)), ('RemovalCookie', set(REMOVAL_SETTERS))):
         missing = table - seen[kind]
         ctx.ob('C12.R3', 'all-setters-present|%s' % kind, not missing, body.loc(),
